@@ -117,12 +117,15 @@ inductive MdOpt where
   | invalid    -- anything else (assertion in `_graft`)
   deriving Repr, DecidableEq
 
-/-- `add_to_tree(parent, child)` once the assertions hold: child is an unrooted top-level node -/
-def attachUnder (h : Heap) (parent : RNode) (child : RNode) : Heap :=
-  let path := (parent.treepath.getD "") ++ "/" ++ child.name
-  let c' := relabel parent.root path child
-  let comps := h.comps.filter (fun c => c.id != child.id)
-  { h with comps := updateInList parent.id (fun p => p.setKids (setKidR c' p.kids)) comps }
+/-- the body of `p.add_to_tree(c)`: the child takes `p`'s root and `p`'s treepath + '/' + its name, recursively
+    (`_update_branch`), and is stored in `p._branch` under its name -/
+def hangF (c : RNode) (p : RNode) : RNode :=
+  p.setKids (setKidR (relabel p.root ((p.treepath.getD "") ++ "/" ++ c.name) c) p.kids)
+
+/-- `add_to_tree(parent, child)` once the assertions hold: `child` stops being a top-level object and hangs under the
+    node with id `pid` -/
+def attachUnder (h : Heap) (pid : Nat) (child : RNode) : Heap :=
+  { h with comps := updateInList pid (hangF child) (h.comps.filter (fun c => c.id != child.id)) }
 
 /-- `parent.add_to_tree(child)` -/
 def addToTree (h : Heap) (pid cid : Nat) : Heap × TOut :=
@@ -131,7 +134,7 @@ def addToTree (h : Heap) (pid cid : Nat) : Heap × TOut :=
     if p.root.isNone then (h, .refused)            -- can't add to an unrooted node
     else if c.root.isSome then (h, .refused)       -- can't add a rooted node
     else if pid = cid then (h, .error)
-    else (attachUnder h p c, .ok)
+    else (attachUnder h pid c, .ok)
   | _, _ => (h, .error)
 
 /-- the state of the merge loop: the receiving root's metadata dict, the Metadata objects, the next object id -/
@@ -165,6 +168,24 @@ def mergeMd (h : Heap) (opt : MdOpt) (oldRootId newRootId : Nat) : Heap :=
     { h with comps := updateInList newRootId (fun r => r.setMd md') h.comps, mds := mds', nextMd := next' }
   | _, _ => h
 
+/-- `self._root = None` -/
+def unroot : RNode → RNode
+  | .mk i n isR _ t m ks => .mk i n isR none t m ks
+
+/-- `del(x._branch[k])` for the child with this id -/
+def dropKid (kid : Nat) (x : RNode) : RNode := x.setKids (x.kids.filter (fun y => y.id != kid))
+
+/-- one iteration of the loop that empties a root being grafted: the child leaves the root's `_branch`, is unrooted and
+    added under the receiver (if the receiver can still be reached) -/
+def moveKid (sid recvId : Nat) (acc : Heap) (k : RNode) : Heap :=
+  let acc' : Heap := { acc with comps := updateInList sid (dropKid k.id) acc.comps ++ [unroot k] }
+  if (acc'.find recvId).isSome then attachUnder acc' recvId (unroot k) else acc'
+
+/-- the tree surgery of `_graft` for a scion that is not a root: remove the connection from upstream, unroot, add -/
+def moveBranch (h : Heap) (s : RNode) (recvId : Nat) : Heap :=
+  let acc : Heap := { h with comps := (h.comps.map (removeIn s.id)) ++ [unroot s] }
+  if (acc.find recvId).isSome then attachUnder acc recvId (unroot s) else acc
+
 /-- `scion._graft(receiver, opt)` -/
 def graftInto (h : Heap) (scionId recvId : Nat) (opt : MdOpt) : Heap × TOut :=
   match h.find scionId, h.find recvId with
@@ -172,21 +193,8 @@ def graftInto (h : Heap) (scionId recvId : Nat) (opt : MdOpt) : Heap × TOut :=
     match s.root, r.root with
     | some oldRoot, some newRoot =>
       let h1 : Heap :=
-        if s.isRoot then
-          -- grafting from a root: its children are moved one by one
-          s.kids.foldl (fun acc k =>
-            let acc' := { acc with comps := (updateInList s.id (fun x => x.setKids (x.kids.filter (fun y => y.id != k.id))) acc.comps) ++
-                                            [match k with | .mk i n isR _ t m ks => .mk i n isR none t m ks] }
-            match acc'.find recvId, acc'.find k.id with
-            | some r', some k' => attachUnder acc' r' k'
-            | _, _ => acc') h
-        else
-          -- remove the connection from upstream, unroot, add to the new tree
-          let detached : RNode := match s with | .mk i n isR _ t m ks => .mk i n isR none t m ks
-          let acc := { h with comps := (h.comps.map (removeIn s.id)) ++ [detached] }
-          match acc.find recvId with
-          | some r' => attachUnder acc r' detached
-          | none => acc
+        if s.isRoot then s.kids.foldl (moveKid s.id recvId) h     -- grafting from a root: its children move one by one
+        else moveBranch h s recvId
       match opt with
       | .invalid => (h1, .refused)      -- the assertion on merge_metadata comes after the tree surgery
       | _ => (mergeMd h1 opt oldRoot newRoot, .node newRoot)
